@@ -2,15 +2,15 @@
 #define HX_HAS_ROTATION 1
 #include "generic.h"
 namespace hx {
-template <> struct Extra<manif::SE2d> {
+template <> struct Extra<manif::SE2<HX_SC>> {
   static bool run(const Req& r, Resp& R) {
     const auto& a = r.a;
-    using G = manif::SE2d;
-    if (r.op == "ctor_xyt" && a.size() == 3) { G g(a[0], a[1], a[2]); pushM(R.out, g.coeffs()); return true; }
+    using G = manif::SE2<HX_SC>;
+    if (r.op == "ctor_xyt" && a.size() == 3) { G g((HX_SC)a[0], (HX_SC)a[1], (HX_SC)a[2]); pushM(R.out, g.coeffs()); return true; }
     if (r.op == "angle" && a.size() == 4) { Operand<G, 'o'> x(a.data()); R.out.push_back(x.get().angle()); return true; }
     if (r.op == "ctor_iso" && a.size() == 9) {
-      Eigen::Transform<double, 2, Eigen::Isometry> h;
-      for (int i = 0; i < 3; ++i) for (int j = 0; j < 3; ++j) h.matrix()(i, j) = a[3 * i + j];
+      Eigen::Transform<HX_SC, 2, Eigen::Isometry> h;
+      for (int i = 0; i < 3; ++i) for (int j = 0; j < 3; ++j) h.matrix()(i, j) = (HX_SC)a[3 * i + j];
       G g(h); pushM(R.out, g.coeffs()); return true;
     }
     if (r.op == "accessors" && a.size() == 4) {
@@ -23,5 +23,5 @@ template <> struct Extra<manif::SE2d> {
     return false;
   }
 };
-void run_SE2(const Req& r, Resp& R) { run<manif::SE2d>(r, R); }
+void run_SE2(const Req& r, Resp& R) { run<manif::SE2<HX_SC>>(r, R); }
 }
